@@ -9,6 +9,7 @@ package net
 //@ func authenticateConnection
 //@   props C16 C10
 //@   requires conn != nil && logger != nil && typeIs(conn, "*tls.Conn") && dyn(conn, "*tls.Conn") != nil
+//@   modifies heap:L!wire!inpos
 //@   at return:
 //@     assert [binding]    result.2 ==> string(h.TLSBinding) == tlsExporter(conn, "MPC", "MPC", 32)
 //@     assert [identity]   result.2 ==> pemOK(h.Identity) && certOK(pemBytes(h.Identity)) &&
@@ -107,6 +108,7 @@ package net
 //@ func (*Handshake).Read
 //@   props C10 C16
 //@   requires reader != nil
+//@   modifies *h, heap:L!wire!inpos
 
 //@ func extractTLSBinding
 //@   props C10 C16
